@@ -59,6 +59,14 @@ func contentT(k int) []byte {
 	return contentTCache[k]
 }
 
+// S ids: ids that now and then hold the content of an A id (S[k] shares the output file of A[3k+3]) and
+// now and then content of their own: an id that moves on to other content leaves the output it used to
+// share to those who still name it.
+const nS = 4
+
+func idS(k int) cache.ActionID { return cache.ActionID(sha256.Sum256([]byte(fmt.Sprintf("S-%d", k)))) }
+func sharedA(k int) int        { return 3*k + 3 }
+
 func idA(k int) cache.ActionID { return cache.ActionID(sha256.Sum256([]byte(fmt.Sprintf("A-%d", k)))) }
 func idB(k int) cache.ActionID { return cache.ActionID(sha256.Sum256([]byte(fmt.Sprintf("B-%d", k)))) }
 
@@ -155,6 +163,8 @@ type workerResult struct {
 	MissAEarly      int64 `json:"miss_a_before_any_put_completed"`
 	FailedPuts      int64 `json:"puts_with_a_failing_source"`
 	TOutputsRemoved int64 `json:"outputs_removed_under_a_live_index_entry"`
+	SShared         int64 `json:"puts_making_two_ids_share_an_output"`
+	SOwn            int64 `json:"puts_moving_a_sharing_id_to_other_content"`
 	THits, TMisses  int64
 	HitsB           int64               `json:"hits_b"`
 	MissB           int64               `json:"miss_b"`
@@ -219,6 +229,44 @@ func worker() {
 			rng := rand.New(rand.NewSource(seed*1000 + int64(g)))
 			var evs []event
 			for i := 0; i < N; i++ {
+				if rng.Intn(24) == 0 {
+					sk := rng.Intn(nS)
+					atomic.AddInt64(&res.Ops, 1)
+					switch rng.Intn(3) {
+					case 0: // the content of A[sharedA(sk)]: one output file, two ids
+						if err := c.PutBytes(idS(sk), contentA(sharedA(sk))); err != nil {
+							viol("put-failed", fmt.Sprintf("Put(id S%d) returned %v", sk, err))
+						}
+						atomic.AddInt64(&res.SShared, 1)
+					case 1: // content of its own: the shared output is no longer this id's
+						v := wid*1_000_000 + atomic.AddInt64(&serial, 1)
+						if err := c.PutBytes(idS(sk), payload.Make(fmt.Sprintf("S%d", sk), v, 5000)); err != nil {
+							viol("put-failed", fmt.Sprintf("Put(id S%d) returned %v", sk, err))
+						}
+						atomic.AddInt64(&res.SOwn, 1)
+					default:
+						data, ent, err := c.GetBytes(idS(sk))
+						if err != nil {
+							if !strings.HasPrefix(err.Error(), "cache entry not found") {
+								viol("lookup-failed", fmt.Sprintf("id S%d: lookup returned %v (not a not-found error)", sk, err))
+							}
+							break
+						}
+						ok := bytes.Equal(data, contentA(sharedA(sk)))
+						if !ok {
+							parts := strings.SplitN(string(data[:min(len(data), 48)]), "|", 4)
+							if len(parts) == 4 && parts[0] == fmt.Sprintf("S%d", sk) {
+								if v, perr := strconv.ParseInt(parts[1], 10, 64); perr == nil {
+									ok = bytes.Equal(data, payload.Make(parts[0], v, 5000))
+								}
+							}
+						}
+						if !ok || int64(len(data)) != ent.Size || sha256.Sum256(data) != [32]byte(ent.OutputID) {
+							viol("foreign-or-corrupt-bytes", fmt.Sprintf("id S%d: GetBytes returned %d bytes (entry size %d) that nobody stored under it", sk, len(data), ent.Size))
+						}
+					}
+					continue
+				}
 				k := rng.Intn(nA + nB + nT/2) // the T ids are drawn less often
 				if k >= nA+nB {
 					tk := rng.Intn(nT)
@@ -438,7 +486,7 @@ func main() {
 		return
 	}
 	vlib.Main("C11", "exploration", 10*time.Minute, func(r *vlib.Run) {
-		r.Rule("rounds; each round = fresh cache directory shared by P processes (3-8) x G goroutines (4-8) released together, each doing N operations on 24 identical-content ids (sizes 0..1MiB, half of the Puts from a slow source) and 8 differing-content ids (64B..200KiB): 50% Put/PutBytes, 50% GetBytes/GetFile, with seeded delays at the cache.* hook points. Evaluations = operations executed; distinct non-trivial = lookups that overlapped in time with a Put of the same id in another goroutine or process (counted from the merged op log), plus rounds. One in twelve Puts of a differing-content id uses a source that fails half-way through the copy pass (fresh content), and before the final sweep one such failing Put is made on every stored differing-content id: writers that finish with an error must not hide what was stored. Four further identical-content ids (300 KiB - 1 MiB) have their output file removed now and then while their index entry stays (what Trim does to an entry kept fresh through Get only) and are stored again concurrently: their lookups may miss, but what they return must be exact; in the final sweep each of them is stored once more (two after another removal of the output) and must then be readable through GetBytes and GetFile.")
+		r.Rule("rounds; each round = fresh cache directory shared by P processes (3-8) x G goroutines (4-8) released together, each doing N operations on 24 identical-content ids (sizes 0..1MiB, half of the Puts from a slow source) and 8 differing-content ids (64B..200KiB): 50% Put/PutBytes, 50% GetBytes/GetFile, with seeded delays at the cache.* hook points. Evaluations = operations executed; distinct non-trivial = lookups that overlapped in time with a Put of the same id in another goroutine or process (counted from the merged op log), plus rounds. One in twelve Puts of a differing-content id uses a source that fails half-way through the copy pass (fresh content), and before the final sweep one such failing Put is made on every stored differing-content id: writers that finish with an error must not hide what was stored. Four further identical-content ids (300 KiB - 1 MiB) have their output file removed now and then while their index entry stays (what Trim does to an entry kept fresh through Get only) and are stored again concurrently: their lookups may miss, but what they return must be exact; four more ids alternate between the content of an identical-content id (sharing its output file) and content of their own, which must leave the shared output to the id that still names it; in the final sweep each of them is stored once more (two after another removal of the output) and must then be readable through GetBytes and GetFile.")
 		r.Assume("Trim is not part of this workload; flag 'Put completed' is set after Put returned and sampled before the lookup is invoked (client boundary)")
 		base := vlib.Scratch()
 		rounds := r.Pick(12, 90)
@@ -518,6 +566,8 @@ func main() {
 				tot.MissAEarly += wr.MissAEarly
 				tot.FailedPuts += wr.FailedPuts
 				tot.TOutputsRemoved += wr.TOutputsRemoved
+				tot.SShared += wr.SShared
+				tot.SOwn += wr.SOwn
 				tot.THits += wr.THits
 				tot.TMisses += wr.TMisses
 				tot.HitsB += wr.HitsB
@@ -647,6 +697,7 @@ func main() {
 		r.Set("misses_identical_before_any_put_completed", tot.MissAEarly)
 		r.Set("puts_with_a_failing_source_during_the_rounds", tot.FailedPuts)
 		r.Set("outputs_removed_under_a_live_index_entry", tot.TOutputsRemoved)
+		r.Set("puts_making_two_ids_share_an_output_then_moving_one_on", []int64{tot.SShared, tot.SOwn})
 		r.Set("lookups_of_such_ids_hit_and_missed", []int64{tot.THits, tot.TMisses})
 		r.Set("hits_differing_content_ids", tot.HitsB)
 		r.Set("misses_differing_content_ids", tot.MissB)
